@@ -26,6 +26,7 @@ def run(ctx):
     held(ctx)
     nochange(ctx)
     bcast(ctx)
+    announce(ctx)
 
 
 def tx2(ctx):
@@ -256,3 +257,28 @@ def bcast(ctx):
             mp[fn] = cm.origin_summary(flow.origins(b, p, at=(bb, i))) if p is not None else []
         ok = any("db_version" in x for x in mp.get("version", [])) and any("last_seq" in x for x in mp.get("last_seq", [])) and any(x.endswith("ts") for x in mp.get("ts", []))
         R.require(ok, "full-fields", "%s:%d" % (b.file, line), "Full{version<-db_version, last_seq<-last_seq, ts<-ts}", fail_msg="Changeset::Full field provenance: %s" % mp)
+
+
+def announce(ctx):
+    """an acknowledged version must be announced completely: each chunk is handed to the broadcast queue with a send that waits
+    for capacity; a non-waiting try_send on the bounded queue silently drops chunks under load"""
+    F, G = ctx.F, ctx.G
+    R = ctx.rule("C07.announce", "K1+K2", "broadcast_changes hands every chunk of the committed version to the broadcast queue with a capacity-waiting send (chunks cannot be dropped because the queue is full)")
+    fam = F.family(F.get(BCAST)) if F.get(BCAST) else []
+    adds = [(b,) + a for b in fam for a in cm.aggregates(b, "klukai_types::broadcast::BroadcastInput", "AddBroadcast")]
+    if not R.require(len(adds) == 1, "AddBroadcast", "", "one AddBroadcast construction in broadcast_changes", fail_msg="expected one BroadcastInput::AddBroadcast construction in broadcast_changes, found %d" % len(adds)):
+        return
+    b, bb, i, place, k, ops, line = adds[0]
+    tainted, sinks = flow.taint(b, [place[0]], through_all_calls=False)
+    senders = [c for c, idx in sinks if "BroadcastInput" in c.self_ty and re.search(r"::(send|try_send|blocking_send|send_timeout)$", c.f)]
+    if not R.anchor(senders, "send-call", "the channel send receiving the AddBroadcast value"):
+        return
+    c = senders[0]
+    R.require(c.f.endswith("CorroSender::<T>::send") or c.f.endswith("Sender::<T>::send") or c.name() == "blocking_send", "waits-for-capacity", c.where(),
+              "the chunk is enqueued with %s (waits for capacity)" % c.name(),
+              fail_msg="the chunk is enqueued with `%s`: when the bounded broadcast queue is full the chunk is dropped, so an acknowledged version is announced incompletely or not at all" % c.name())
+    # every chunk yielded by the chunker reaches an AddBroadcast: the construction is in the Ok arm of the chunk loop with no early exit before it
+    main = next((x for x in fam if any(cc.f.endswith("ChunkedChanges::<I>::new") for cc in x.calls)), None)
+    if main is not None:
+        nx = [cc for cc in main.calls if cc.name() == "next" and "ChunkedChanges" in cc.self_ty + cc.fi]
+        R.require(bool(nx), "chunk-loop", main.where(), "all chunks of the version are iterated")
